@@ -19,6 +19,7 @@ import (
 )
 
 type raceEvent struct {
+	ord    int
 	thread int
 	seg    int // segment index within thread (increments at every sync event)
 	sync   string
@@ -28,7 +29,45 @@ type raceEvent struct {
 	write  bool
 }
 
+type raceCached struct {
+	conflicts, ordered int
+	races              []string
+}
+
+var raceCache = map[string]raceCached{}
+
+// raceSignature renders a trace with objects renamed by first occurrence.
+func raceSignature(all []raceEvent) string {
+	ids := map[*Object]int{}
+	sids := map[int]int{}
+	rank := make([]int, len(all))
+	idx := make([]int, len(all))
+	for i := range idx {
+		idx[i] = i
+	}
+	sort.Slice(idx, func(a, b int) bool { return all[idx[a]].ord < all[idx[b]].ord })
+	for r, i := range idx {
+		rank[i] = r
+	}
+	var sb strings.Builder
+	for i, e := range all {
+		id, ok := ids[e.obj]
+		if !ok {
+			id = len(ids)
+			ids[e.obj] = id
+		}
+		sid, ok := sids[e.syncID]
+		if !ok {
+			sid = len(sids)
+			sids[e.syncID] = sid
+		}
+		fmt.Fprintf(&sb, "%d:%d:%s:%d:%s:%v:%d;", e.thread, rank[i], e.sync, id, e.path, e.write, sid)
+	}
+	return sb.String()
+}
+
 type raceResult struct {
+	CacheHits    int
 	Queries      int
 	Conflicts    int // conflicting pairs examined (all must be ordered)
 	OrderedBySW  int // conflicting pairs ordered only through a sync.Once edge
@@ -66,7 +105,7 @@ func splitThreads(evs []AccessEvent) [][]raceEvent {
 	cur := -1
 	seg := 0
 	seen := map[string]bool{}
-	for _, e := range evs {
+	for ord, e := range evs {
 		if strings.HasPrefix(e.Sync, "mark:") {
 			if e.Sync == "mark:end" {
 				cur = -2
@@ -84,7 +123,7 @@ func splitThreads(evs []AccessEvent) [][]raceEvent {
 		if e.Sync != "" {
 			seg++
 			seen = map[string]bool{}
-			threads[cur] = append(threads[cur], raceEvent{thread: cur, seg: seg, sync: e.Sync, syncID: e.SyncID, obj: e.Obj})
+			threads[cur] = append(threads[cur], raceEvent{ord: ord, thread: cur, seg: seg, sync: e.Sync, syncID: e.SyncID, obj: e.Obj, path: e.Path})
 			seg++
 			continue
 		}
@@ -93,7 +132,43 @@ func splitThreads(evs []AccessEvent) [][]raceEvent {
 			continue
 		}
 		seen[k] = true
-		threads[cur] = append(threads[cur], raceEvent{thread: cur, seg: seg, obj: e.Obj, path: e.Path, write: e.Write})
+		threads[cur] = append(threads[cur], raceEvent{ord: ord, thread: cur, seg: seg, obj: e.Obj, path: e.Path, write: e.Write})
+	}
+	return threads
+}
+
+// splitSched: per-thread traces of an interleaved (verifPar) run; the observed global order is kept in ord.
+func splitSched(evs []AccessEvent) [][]raceEvent {
+	threads := [][]raceEvent{nil, nil}
+	seg := []int{0, 0}
+	seen := []map[string]bool{{}, {}}
+	in := false
+	for ord, e := range evs {
+		if e.Sync == "mark:par-begin" {
+			in = true
+			continue
+		}
+		if e.Sync == "mark:par-end" {
+			in = false
+			continue
+		}
+		if !in || e.Thread < 0 || e.Thread > 1 || (e.Sync != "" && len(e.Sync) > 5 && e.Sync[:5] == "mark:") {
+			continue
+		}
+		t := e.Thread
+		if e.Sync != "" {
+			seg[t]++
+			seen[t] = map[string]bool{}
+			threads[t] = append(threads[t], raceEvent{ord: ord, thread: t, seg: seg[t], sync: e.Sync, syncID: e.SyncID, obj: e.Obj, path: e.Path})
+			seg[t]++
+			continue
+		}
+		k := fmt.Sprintf("%d|%s|%v", e.Obj.ID, e.Path, e.Write)
+		if seen[t][k] {
+			continue
+		}
+		seen[t][k] = true
+		threads[t] = append(threads[t], raceEvent{ord: ord, thread: t, seg: seg[t], obj: e.Obj, path: e.Path, write: e.Write})
 	}
 	return threads
 }
@@ -101,10 +176,53 @@ func splitThreads(evs []AccessEvent) [][]raceEvent {
 // decideRaces encodes happens-before as Boolean unknowns closed under program order,
 // synchronises-with and transitivity, and asks for an unordered conflicting pair.
 func decideRaces(solver *Solver, threads [][]raceEvent, label string, res *raceResult) {
+	// keep only synchronisation events and accesses that have a conflicting partner in the other
+	// thread (accesses to locations nobody else writes cannot race and only enlarge the closure)
 	var all []raceEvent
-	for _, t := range threads {
-		all = append(all, t...)
+	for ti, t := range threads {
+		for _, e := range t {
+			if e.sync != "" {
+				all = append(all, e)
+				continue
+			}
+			keep := false
+			for tj, u := range threads {
+				if tj == ti {
+					continue
+				}
+				for _, f := range u {
+					if f.sync == "" && f.obj == e.obj && (f.write || e.write) && pathsOverlap(f.path, e.path) {
+						keep = true
+						break
+					}
+				}
+			}
+			if keep {
+				all = append(all, e)
+			}
+		}
 	}
+	// identical trace shapes have identical answers: canonical signature -> cached verdict
+	sig := raceSignature(all)
+	if r, ok := raceCache[sig]; ok {
+		res.Events += len(all)
+		res.Conflicts += r.conflicts
+		res.OrderedBySW += r.ordered
+		res.CacheHits++
+		for _, m := range r.races {
+			res.RacePairs++
+			res.Races = append(res.Races, label+": "+m)
+		}
+		return
+	}
+	before := *res
+	defer func() {
+		var rs []string
+		for _, m := range res.Races[len(before.Races):] {
+			rs = append(rs, strings.TrimPrefix(m, label+": "))
+		}
+		raceCache[sig] = raceCached{conflicts: res.Conflicts - before.Conflicts, ordered: res.OrderedBySW - before.OrderedBySW, races: rs}
+	}()
 	n := len(all)
 	res.Threads = len(threads)
 	res.Events += n
@@ -128,22 +246,46 @@ func decideRaces(solver *Solver, threads [][]raceEvent, label string, res *raceR
 			}
 		}
 	}
-	// synchronises-with: once-end (thread p) -> once-skip (thread q) on the same Once
-	sw := map[[2]int]bool{}
-	for i := 0; i < n; i++ {
-		if all[i].sync != "once-end" {
-			continue
+	// synchronises-with edges, from the observed order of synchronisation operations:
+	//   once-end  -> later once-skip of another goroutine on the same Once
+	//   atomic store -> the later atomic loads that read it (no other store to the cell in between)
+	//   unlock -> the next lock of the same mutex by another goroutine
+	lastBefore := func(j int, pred func(k int) bool) int {
+		best := -1
+		for k := 0; k < n; k++ {
+			if all[k].ord < all[j].ord && pred(k) && (best < 0 || all[k].ord > all[best].ord) {
+				best = k
+			}
 		}
-		for j := 0; j < n; j++ {
-			if all[j].thread != all[i].thread && all[j].sync == "once-skip" && all[j].syncID == all[i].syncID {
+		return best
+	}
+	for j := 0; j < n; j++ {
+		switch all[j].sync {
+		case "once-skip":
+			for i := 0; i < n; i++ {
+				if all[i].sync == "once-end" && all[i].thread != all[j].thread && all[i].syncID == all[j].syncID && all[i].ord < all[j].ord {
+					cs = append(cs, hb[i][j])
+				}
+			}
+		case "atomic-load":
+			i := lastBefore(j, func(k int) bool {
+				return all[k].sync == "atomic-store" && all[k].obj == all[j].obj && all[k].path == all[j].path
+			})
+			if i >= 0 && all[i].thread != all[j].thread {
 				cs = append(cs, hb[i][j])
-				sw[[2]int{i, j}] = true
+			}
+		case "lock", "rlock":
+			i := lastBefore(j, func(k int) bool {
+				return (all[k].sync == "unlock" || all[k].sync == "runlock") && all[k].syncID == all[j].syncID
+			})
+			if i >= 0 && all[i].thread != all[j].thread {
+				cs = append(cs, hb[i][j])
 			}
 		}
 	}
 	for i := 0; i < n; i++ {
 		switch all[i].sync {
-		case "", "once-enter", "once-skip", "once-begin", "once-end":
+		case "", "once-enter", "once-skip", "once-begin", "once-end", "atomic-load", "atomic-store", "lock", "unlock", "rlock", "runlock":
 		default:
 			// lock/unlock/atomic: not given edges here (sound: fewer edges = more races reported), but flagged
 			res.UnknownSync = append(res.UnknownSync, all[i].sync)
@@ -246,6 +388,18 @@ func c12Instances(tier string) []*Instance {
 				}
 			}
 		}
+		// interleaving exploration (cooperative threads) for the calls that reach the lazily built tables
+		schedOps := []int64{0, 2, 6}
+		if tier == "thorough" {
+			schedOps = []int64{0, 1, 2, 3, 4, 5, 6, 7}
+		}
+		for _, lgB := range partners {
+			for _, a := range schedOps {
+				for _, b := range schedOps {
+					out = append(out, &Instance{Harness: "H_C12_sched", Args: []int64{a, lgA, b, lgB, 0}, Lang: int(lgA), LogEvents: true, MaxWitnesses: 0})
+				}
+			}
+		}
 		// symbolic arguments for the calls that reach the lazily built table
 		symOps := []int64{0, 2}
 		if tier == "thorough" {
@@ -270,11 +424,16 @@ func c12Post(c *CheckRun) {
 	raceInst := map[string]*Instance{}
 	var labels []string
 	for _, inst := range c.Insts {
-		if inst.Harness != "H_C12_pair" {
+		if inst.Harness != "H_C12_pair" && inst.Harness != "H_C12_sched" {
 			continue
 		}
 		for pi, evs := range inst.Events {
-			threads := splitThreads(evs)
+			var threads [][]raceEvent
+			if inst.Harness == "H_C12_sched" {
+				threads = splitSched(evs)
+			} else {
+				threads = splitThreads(evs)
+			}
 			if len(threads) != 2 {
 				continue
 			}
@@ -290,7 +449,11 @@ func c12Post(c *CheckRun) {
 					}
 				}
 			}
-			label := fmt.Sprintf("%s(%s) || %s(%s) [first wins, path %d]", c12OpNames[inst.Args[0]], langNames[inst.Args[1]], c12OpNames[inst.Args[2]], langNames[inst.Args[3]], pi)
+			mode := "first wins"
+			if inst.Harness == "H_C12_sched" {
+				mode = "explored interleaving"
+			}
+			label := fmt.Sprintf("%s(%s) || %s(%s) ["+mode+", path %d]", c12OpNames[inst.Args[0]], langNames[inst.Args[1]], c12OpNames[inst.Args[2]], langNames[inst.Args[3]], pi)
 			before := len(total.Races)
 			decideRaces(solver, threads, label, total)
 			if len(total.Races) > before {
@@ -300,6 +463,7 @@ func c12Post(c *CheckRun) {
 		}
 	}
 	c.Extra["race_queries"] = total.Queries
+	c.Extra["race_verdicts_reused_for_identical_trace_shapes"] = total.CacheHits
 	c.Extra["conflicting_access_pairs_examined"] = total.Conflicts
 	c.Extra["conflicting_pairs_proved_ordered"] = total.OrderedBySW
 	c.Extra["trace_events_after_coalescing"] = total.Events
